@@ -1,4 +1,9 @@
-"""C16 — validation rewrites identifiers and integers without altering the data."""
+"""C16 — validation rewrites identifiers and integers without altering the data.
+
+Parts: choose_int_dtype on type boundaries (1601/1605); is_ensembl (1603); validate_h5ad on small generated
+files (1604 + 1602); validate_h5ad and get_minmax_x_from_h5ad on block-layout files: matrices of several
+HDF5 chunks / doubled blocks in both directions with non-square chunk shapes, the entries that decide the
+integer type (and the only non-integer entry) placed on the edges of chunks, blocks and the matrix."""
 import json
 import re
 import warnings
